@@ -4,7 +4,7 @@
 #   1. the existing suite passes with the change (demo test skipped), 2. the demo fails with it, 3. passes without it.
 set -u
 id="$1"; label="${2:-$1}"
-wt=/tmp/seed/$id
+wt=${SEEDROOT:-/tmp/seed}/$id
 dst=/verif/seeded/$label
 export GOFLAGS=-mod=mod GOPROXY=off
 cd "$wt" || exit 2
